@@ -693,7 +693,8 @@ class DataAccessObject(HasGeneric[T]):
             argument_names, state
         )
 
-        init_args = {**base_kwargs, **kwargs}
+        # the arguments that come through the mapping of an alternatively mapped parent replace the raw columns of it
+        init_args = {**kwargs, **base_kwargs}
         self._call_initializer_or_assign(result, init_args)
 
         self._apply_circular_fixes(result, circular_refs, state)
@@ -802,8 +803,17 @@ class DataAccessObject(HasGeneric[T]):
             for rel in parent_mapper.relationships:
                 setattr(parent_dao, rel.key, getattr(self, rel.key))
             base_result = parent_dao.from_dao(state=state)
+            # what the alternatively mapped parent stores is the storage of its mapping: a constructor argument it
+            # keeps under the same name (possibly converted) comes back through the mapping, like for the parent itself
+            stored_by_parent = {
+                column.name
+                for column in parent_mapper.columns
+                if is_data_column(column)
+            } | {rel.key for rel in parent_mapper.relationships}
             for argument in argument_names:
-                if argument not in base_kwargs and not hasattr(self, argument):
+                if argument not in base_kwargs and (
+                    not hasattr(self, argument) or argument in stored_by_parent
+                ):
                     try:
                         base_kwargs[argument] = getattr(base_result, argument)
                     except AttributeError:
